@@ -228,4 +228,176 @@ theorem round_cons [DecidableEq α] [Inhabited α] {r : ZCReader α} (h : AllF r
     cases e <;> simp [errOf, hk]
 
 
+/-! ## `waitRead` -/
+
+theorem Q.push_flushedBytes {q : Q α} (d : List α) : (q.push d).flushedBytes = q.flushedBytes ++ d := by
+  simp [Q.push, Q.flushedBytes, List.filter_append, allF_filter (allF_map_true d), Function.comp_def]
+
+theorem Q.push_allF {q : Q α} (h : AllF q.items) (d : List α) : AllF (q.push d).items :=
+  allF_append h (allF_map_true d)
+
+theorem Q.push_flags {q : Q α} (h : QFlags q) (d : List α) : QFlags (q.push d) := by
+  obtain ⟨h1, h2, h3, _⟩ := h
+  exact ⟨h1, h2, h3, rfl⟩
+
+theorem Src.pulled_eq (s : Src α) : s.pulled = seg s.stream 0 s.pos := by simp [Src.pulled, seg]
+
+/-- unconditional facts about a round: which script entry it consumes and which error it reports -/
+theorem round_src_nil [DecidableEq α] [Inhabited α] (r : ZCReader α) (b : Nat) (hs : r.src.script = []) :
+    (r.round b).2 = some .eof ∧ (r.round b).1.src = r.src := by
+  simp [ZCReader.round, Src.read_nil hs, ZCReader.call_fst]
+
+theorem round_src_cons [DecidableEq α] [Inhabited α] (r : ZCReader α) (b : Nat) {p rest} (hs : r.src.script = p :: rest) :
+    (r.round b).2 = errOf p ∧ (r.round b).1.src.script = rest := by
+  obtain ⟨k, e⟩ := p
+  by_cases hk : k < 0
+  · simp only [ZCReader.round, Src.read_cons hs, ZCReader.call_fst, hk, if_true]
+    cases e <;> simp [errOf, hk]
+  · have hnn : ¬ ((gotOf b (k, e) : Nat) : Int) < 0 := by omega
+    simp only [ZCReader.round, Src.read_cons hs, ZCReader.call_fst, hk, hnn, if_false]
+    cases e <;> simp [errOf, hk]
+
+theorem round_good [DecidableEq α] [Inhabited α] {r : ZCReader α} (hr : RGood r) (b : Nat) : RGood (r.round b).1 := by
+  obtain ⟨hst, hall, hfl, hin⟩ := hr
+  cases hs : r.src.script with
+  | nil =>
+    rw [round_nil hall hfl hs]
+    exact ⟨by simpa [Q.push_flushedBytes] using hst, Q.push_allF hall _, Q.push_flags hfl _, hin⟩
+  | cons p rest =>
+    rw [round_cons hall hfl hs]
+    refine ⟨?_, Q.push_allF hall _, Q.push_flags hfl _, hin⟩
+    simp only [Q.push_flushedBytes, Src.pulled]
+    rw [range_map_add, ← List.append_assoc, hst]; rfl
+
+
+/-- what `waitRead n` does, in terms of the source script: either enough is buffered and the source is not called,
+or it makes the calls `pre ++ [last]` (a prefix of the script followed by `(0, EOF)`): the calls in `pre` are
+error-free, the result is the error of `last`, and if `last` is error-free too the wanted `n` bytes are buffered.
+Every byte those calls returned (including the ones that came with the error) has been appended to the buffer. -/
+def WaitSpec (b : Nat) (n : Int) (r : ZCReader α) (out : ZCReader α × Option AErr) : Prop :=
+  RGood out.1 ∧ out.1.delivered = r.delivered ∧ out.1.src.stream = r.src.stream ∧
+  (((r.q.len : Int) ≥ n ∧ out = (r, none)) ∨
+   ((r.q.len : Int) < n ∧ ∃ pre last, (pre ++ [last]) <+: r.src.eff ∧
+      out.1.src.script = r.src.script.drop (pre.length + 1) ∧
+      (∀ p ∈ pre, errOf p = none) ∧ out.2 = errOf last ∧ (errOf last = none → (out.1.q.len : Int) ≥ n) ∧
+      out.1.src.pos = r.src.pos + ((pre ++ [last]).map (gotOf b)).sum))
+
+theorem waitRead_spec [DecidableEq α] [Inhabited α] (b : Nat) (n : Int) :
+    ∀ (fuel : Nat) (r : ZCReader α), RGood r → r.src.script.length + 1 ≤ fuel →
+      WaitSpec b n r (r.waitRead b fuel n) := by
+  intro fuel
+  induction fuel with
+  | zero => intro r _ h; omega
+  | succ fuel ih =>
+    intro r hr hfuel
+    unfold ZCReader.waitRead
+    by_cases hlen : (r.q.len : Int) ≥ n
+    · simp only [hlen, if_true]
+      exact ⟨hr, rfl, rfl, Or.inl ⟨hlen, rfl⟩⟩
+    · simp only [hlen, if_false]
+      have hlt : (r.q.len : Int) < n := by omega
+      have hgood := round_good hr b
+      cases hs : r.src.script with
+      | nil =>
+        have h1 := round_nil hr.allF hr.flags hs b
+        rw [h1] at hgood ⊢
+        refine ⟨hgood, rfl, rfl, Or.inr ⟨hlt, [], (0, .eof), ?_, ?_, ?_, ?_, ?_, ?_⟩⟩
+        · simp [Src.eff, hs]
+        · simp [hs]
+        · simp
+        · simp [errOf]
+        · simp [errOf]
+        · simp [gotOf]
+      | cons p rest =>
+        have h1 := round_cons hr.allF hr.flags hs b
+        rw [h1] at hgood
+        cases he : errOf p with
+        | some e =>
+          rw [h1, he]
+          refine ⟨hgood, rfl, rfl, Or.inr ⟨hlt, [], p, ?_, ?_, ?_, ?_, ?_, ?_⟩⟩
+          · simp [Src.eff, hs]
+          · simp [hs]
+          · simp
+          · simp [he]
+          · simp [he]
+          · simp
+        | none =>
+          rw [h1, he]
+          simp only
+          have hfuel' : rest.length + 1 ≤ fuel := by simp [hs] at hfuel; omega
+          obtain ⟨g, hd, hstr, hcase⟩ := ih _ hgood hfuel'
+          refine ⟨g, hd, hstr, Or.inr ⟨hlt, ?_⟩⟩
+          rcases hcase with ⟨hge, hout⟩ | ⟨_, pre, last, hpre, hscr, hpn, hres, hen, hpos⟩
+          · refine ⟨[], p, ?_, ?_, ?_, ?_, ?_, ?_⟩
+            · simp [Src.eff, hs]
+            · simp [hout, hs]
+            · simp
+            · simp [hout, he]
+            · intro _; simpa [hout] using hge
+            · simp [hout]
+          · refine ⟨p :: pre, last, ?_, ?_, ?_, hres, hen, ?_⟩
+            · simpa [Src.eff, hs, List.cons_prefix_cons] using hpre
+            · simpa [hs] using hscr
+            · intro x hx
+              rcases List.mem_cons.1 hx with rfl | hx
+              · exact he
+              · exact hpn x hx
+            · simp only [hpos]; simp [Nat.add_assoc]
+
+
+theorem waitRead_enough [DecidableEq α] [Inhabited α] (b : Nat) (n : Int) :
+    ∀ (fuel : Nat) (r : ZCReader α), r.src.script.length + 1 ≤ fuel →
+      (r.waitRead b fuel n).2 ≠ none ∨ ((r.waitRead b fuel n).1.q.len : Int) ≥ n := by
+  intro fuel
+  induction fuel with
+  | zero => intro r h; omega
+  | succ fuel ih =>
+    intro r hfuel
+    unfold ZCReader.waitRead
+    by_cases hlen : (r.q.len : Int) ≥ n
+    · rw [if_pos hlen]; exact Or.inr hlen
+    · rw [if_neg hlen]
+      cases hrd : r.round b with
+      | mk r' e =>
+        cases e with
+        | some e => simp
+        | none =>
+          simp only
+          cases hs : r.src.script with
+          | nil => have := (round_src_nil r b hs).1; simp [hrd] at this
+          | cons p rest =>
+            have h2 : r'.src.script = rest := by simpa [hrd] using (round_src_cons r b hs).2
+            apply ih
+            rw [h2]; simp [hs] at hfuel; omega
+
+theorem waitRead_fuel_indep [DecidableEq α] [Inhabited α] (b : Nat) (n : Int) :
+    ∀ (f1 f2 : Nat) (r : ZCReader α), r.src.script.length + 1 ≤ f1 → r.src.script.length + 1 ≤ f2 →
+      r.waitRead b f1 n = r.waitRead b f2 n := by
+  intro f1
+  induction f1 with
+  | zero => intro f2 r h; omega
+  | succ f1 ih =>
+    intro f2 r h1 h2
+    cases f2 with
+    | zero => omega
+    | succ f2 =>
+      unfold ZCReader.waitRead
+      by_cases hlen : (r.q.len : Int) ≥ n
+      · simp only [hlen, if_true]
+      · simp only [hlen, if_false]
+        cases hrd : r.round b with
+        | mk r' e =>
+          cases e with
+          | some e => rfl
+          | none =>
+            simp only
+            cases hs : r.src.script with
+            | nil => have := (round_src_nil r b hs).1; simp [hrd] at this
+            | cons p rest =>
+              have h3 : r'.src.script = rest := by simpa [hrd] using (round_src_cons r b hs).2
+              apply ih
+              · rw [h3]; simp [hs] at h1; omega
+              · rw [h3]; simp [hs] at h2; omega
+
+
 end Netpoll.Adapter
